@@ -29,7 +29,7 @@ Changed(fc) == {fc[i][1] : i \in DOMAIN fc}
 Fresh(x) == x[2] = 0 /\ x[3] = 0 /\ x[4] = 0 /\ x[5] = 0 /\ x[7] = PInf /\ x[8] = PInf
 
 Init == /\ tid \in 1 .. Len(Traces) /\ l = 1 /\ ph = "new" /\ err = "ok" /\ done = FALSE
-        /\ T = [n |-> 0] /\ F = <<>> /\ iter = 0 /\ ends = {} /\ npull = 0 /\ grown = <<>> /\ soft = <<"ok", 0>>
+        /\ T = [n |-> 0] /\ F = <<>> /\ iter = 0 /\ ends = {} /\ npull = 0 /\ grown = <<>> /\ soft = <<>>
 
 \* a base learner driven by POO / GPO: a reward without a preceding pull (or two pulls in a row) is the wrapper
 \* crediting a learner for a point it did not propose -- a verdict about the wrapper, not a harness error
@@ -38,6 +38,11 @@ ProtoErr == IF Has(PP, "under") THEN "credit.learner-off-protocol" ELSE "protoco
 CallFail(e) == IF Has(e, "hang") THEN "call.hangs" ELSE IF Has(e, "exc") THEN "call.raises"
                ELSE IF e.k \in {"pull", "glp"} /\ e.ptok # 1 THEN "call.not-a-point"
                ELSE IF ~NoStructChange(e) \/ e.pd # T.pdepth THEN "call.struct-change" ELSE "ok"
+
+\* soft clauses met so far: <<clause, event>>, first occurrence of each clause, at most 6
+AddSoft(sf, cls, at) ==
+  FoldLeft(LAMBDA acc, c : IF c = "ok" \/ Len(acc) >= 6 \/ (\E i \in DOMAIN acc : acc[i][1] = c) THEN acc ELSE Append(acc, <<c, at>>), sf, cls)
+SoftString(sf) == FoldLeft(LAMBDA acc, x : (IF acc = "" THEN "" ELSE acc \o "|") \o x[1] \o "@" \o ToString(x[2]), "", sf)
 
 \* ---- initial state -------------------------------------------------------
 InitStep(e) ==
@@ -58,9 +63,14 @@ PullStep(e) ==
   LET F1 == ApplyFc(F, e.fc)
       st == St(T, F1, iter)
       es == PullEnds(PP, st) \cap SeqRange(e.cands)
+      tauok == PP.algo # "VHCT" \/ (\A c \in Cells(T) \ {1} : TauVClose(st.tau[c], TauVEst(PP, st, c, Epoch(iter)), TauVX(PP, st, c)))
   IN [F |-> F1, ends |-> es,
+      \* C05 next to C06: when the reported thresholds are off the published formula, is the pulled cell still the end of an
+      \* optimistic descent under *some* thresholds within tolerance of it?
+      \* (both soft: the walk continues on the thresholds the library reports)
+      soft |-> << IF ~tauok THEN "grow.threshold-formula" ELSE "ok",        \* C06: tau scaled by the variance term, recomputed at every pull
+                  IF ~tauok /\ PullEndsBand(PP, st) \cap SeqRange(e.cands) = {} THEN "pull.not-optimistic-under-published-thresholds" ELSE "ok" >>,
       err |-> IF e.fc # <<>> /\ ~(PP.algo = "VHCT" /\ OnlyTauChanges(e.fc)) THEN "stats.pull-mutates"
-              ELSE IF PP.algo = "VHCT" /\ ~(\A c \in Cells(T) \ {1} : TauVClose(st.tau[c], TauVEst(PP, st, c, Epoch(iter)), TauVX(PP, st, c))) THEN "grow.threshold-formula"   \* C06: tau scaled by the variance term, recomputed at every pull
               ELSE IF es = {} THEN "pull.not-optimistic"         \* C05: returned point is not the representative of an optimistic end cell
               ELSE "ok"]
 
@@ -87,17 +97,19 @@ RecvCheck(e, e0) ==
       want == IF Grows(PP, stB, e0, k) THEN <<e0>> ELSE <<>>
       tch  == Touched(PP, st0, e0)
   IN
-  \* <<hard clause, soft clause>>.  The index clauses (C05) are soft: every later decision is checked on the observed
-  \* codes, so the walk goes on and the expansions of the following rounds are still judged (C06) -- a wrong index must
-  \* not hide a wrong expansion, nor the other way round.
-  << IF ~(\A c \in Cells(T) : st1.cnt[c] = exp.cnt[c]) THEN "credit.count"            \* C04: exactly the credited cells, +1
+  \* <<hard clause, soft clauses>>.  The credit / statistics clauses (C04) and the index clauses (C05) are soft: the
+  \* observed evidence is adopted and every later decision is checked on the observed codes, so the walk goes on and
+  \* each property is judged on the whole run -- a wrong reward list must not hide the wrong index it leads to, a wrong
+  \* index must not hide a wrong expansion, nor the other way round.  Only the expansion clause (C06) ends the walk.
+  << IF grown # want THEN (IF grown = <<>> THEN "grow.missing" ELSE IF want = <<>> THEN "grow.unexpected" ELSE "grow.wrong-cell")   \* C06
+     ELSE "ok",
+     IF ~(\A c \in Cells(T) : st1.cnt[c] = exp.cnt[c]) THEN "credit.count"            \* C04: exactly the credited cells, +1
      ELSE IF ~(\A c \in Cells(T) : st1.sum[c] = exp.sum[c] /\ st1.sq[c] = exp.sq[c]) THEN "credit.reward"
      ELSE IF ~(\A c \in Cells(T) : F1[c][4] = st1.cnt[c]) THEN "credit.list-length"
      ELSE IF ~(\A c \in cs : AbsI(F1[c][5] - MeanFx(PP, st1, c)) <= 1) THEN "stats.mean"
      ELSE IF ~(\A c \in Cells(T) \ cs : F1[c][5] = F[c][5]) THEN "stats.mean-foreign"
      ELSE IF PP.algo = "VHCT" /\ ~(\A c \in cs : AbsI(F1[c][8] - VarFx(PP, st1, c)) <= PP.tolv) THEN "stats.variance"
      ELSE IF PP.algo = "VHCT" /\ ~(\A c \in Cells(T) \ cs : F1[c][8] = F[c][8]) THEN "stats.variance-foreign"
-     ELSE IF grown # want THEN (IF grown = <<>> THEN "grow.missing" ELSE IF want = <<>> THEN "grow.unexpected" ELSE "grow.wrong-cell")   \* C06
      ELSE IF ~CountsOK(F1, iter + 1) THEN "credit.total"                                     \* C04: counts sum to the completed rounds
      ELSE "ok",
      IF ~(\A c \in tch : Close(st1.U[c], UVal(PP, st1, c, k), TolU(st1, c, k))) THEN "index.U"          \* C05: published index
@@ -107,10 +119,9 @@ RecvCheck(e, e0) ==
 
 RecvStep(e) ==
   LET verdicts == {RecvCheck(e, e0) : e0 \in ends}
-      best == IF <<"ok", "ok">> \in verdicts THEN <<"ok", "ok">>
-              ELSE IF \E v \in verdicts : v[1] = "ok" THEN CHOOSE v \in verdicts : v[1] = "ok"
-              ELSE CHOOSE v \in verdicts : TRUE
-  IN [F |-> ApplyFc(F, e.fc), err |-> best[1], soft |-> best[2]]
+      rank(v) == (IF v[1] = "ok" THEN 0 ELSE 4) + (IF v[2] = "ok" THEN 0 ELSE 2) + (IF v[3] = "ok" THEN 0 ELSE 1)
+      best == CHOOSE v \in verdicts : \A w \in verdicts : rank(v) <= rank(w)
+  IN [F |-> ApplyFc(F, e.fc), err |-> best[1], soft |-> <<best[2], best[3]>>]
 
 \* ---- make_children during receive_reward -----------------------------------------
 MkStep(e) ==
@@ -140,7 +151,8 @@ Step ==
             ELSE IF f # "ok" THEN err' = f /\ UNCHANGED <<T, F, iter, ph, ends, npull, grown, soft>>
             ELSE LET r == PullStep(e) IN
                  /\ F' = r.F /\ ends' = r.ends /\ err' = r.err /\ ph' = "asked" /\ npull' = T.n /\ grown' = <<>>
-                 /\ UNCHANGED <<T, iter, soft>>
+                 /\ soft' = AddSoft(soft, r.soft, l)
+                 /\ UNCHANGED <<T, iter>>
        [] e.k = "glp" ->
             LET f == CallFail(e) IN
             IF f # "ok" THEN err' = f /\ UNCHANGED <<T, F, iter, ph, ends, npull, grown, soft>>
@@ -154,7 +166,7 @@ Step ==
             ELSE IF f # "ok" THEN err' = f /\ UNCHANGED <<T, F, iter, ph, ends, npull, grown, soft>>
             ELSE LET r == RecvStep(e) IN
                  /\ F' = r.F /\ err' = r.err /\ ph' = "told" /\ iter' = iter + 1
-                 /\ soft' = (IF soft[1] = "ok" /\ r.soft # "ok" THEN <<r.soft, l>> ELSE soft)
+                 /\ soft' = AddSoft(soft, r.soft, l)
                  /\ UNCHANGED <<T, ends, npull, grown>>
        [] e.k = "end" -> /\ err' = IF ~StructOK(PP, T) THEN "final.struct" ELSE "ok"
                         /\ UNCHANGED <<T, F, iter, ph, ends, npull, grown, soft>>
@@ -163,7 +175,7 @@ Step ==
 
 Finish ==
   /\ ~done /\ (err # "ok" \/ l > Len(Ev))
-  /\ PrintT(<<"VERDICT", Tr.id, err, l - 1, IF T.n > 0 THEN T.n ELSE 0, soft[1], soft[2]>>)
+  /\ PrintT(<<"VERDICT", Tr.id, err, l - 1, IF T.n > 0 THEN T.n ELSE 0, SoftString(soft)>>)
   /\ done' = TRUE /\ UNCHANGED <<tid, l, T, F, iter, ph, ends, npull, grown, err, soft>>
 
 Next == Step \/ Finish
